@@ -176,6 +176,10 @@ def grid_programs():
         for y in floats:
             for op in ("+", "-", "*", "/", "<", ">", "<=", ">=", "==", "!="):
                 out.append(("float-" + op, ("bin", op, F(x), F(y))))
+    # int() of floats on both sides of zero, integral and not, computed and passed through a function
+    for x in (-2.5, -1.5, -1.0, -0.5, -0.25, 0.0, 0.25, 0.5, 1.0, 1.5, 2.5, 3.99, -3.99, 1e15 + 0.5, -1e15 - 0.5):
+        out.append(("cast-int-of-float", ("cast", "int", F(x))))
+        out.append(("cast-int-of-float-product", ("cast", "int", ("bin", "*", F(x), ("float", "1.0")))))
     vals = {"int": I(3), "float": ("float", "1.5"), "str": ("str", "s"), "bool": ("bool", True), "null": ("null",), "list": ("list", [I(1)]),
             "tuple": ("tuple", [("a", I(1))]), "func": ("func", ["p"], ("sym", "p")), "module": ("module", [], None, [("let", "r", I(1))]),
             "empty-list": ("list", []), "empty-tuple": ("tuple", []), "empty-str": ("str", "")}
